@@ -37,7 +37,13 @@ NOTE = ('Held-on-observed only: the monitors decide the executions the workload 
         'attempts failed by the environment (missing directory, full device, codec, dialect that cannot quote) or refused for a '
         'legitimate reason before the judged calls, sources edited after refused derivations, first traversals given up early, '
         'the same ill-formed arguments submitted again, stateful label callables reused, hash / CRC twin tables and texts in C12, '
-        'C14 and C19. Concurrency is outside the properties (no schedules).')
+        'C14 and C19. Round 14/15 additions (DESIGN 8.6): orders of use - cheap public reads (statistics, printing, comparison, '
+        'exports, one derivation, one generator step, pickling) on a new context before the driver asks anything, sibling lattices '
+        'over the same context (shallow copy, second Lattice(context), pickled / deep-copied alone) asked the member-level '
+        'questions, a loaded lattice kept without its context, traversals right after upset_generalization, definitions exported, '
+        'edited and exported again, take() variants used after their source was edited, several snapshots of one definition, '
+        'str-subclass names with a display form of their own; generator proxies stop a run that yields more items than can exist. '
+        'Concurrency is outside the properties (no schedules).')
 
 def main():
     props = [json.loads(l) for l in open(os.path.join(ROOT, 'properties.jsonl'))]
